@@ -1007,7 +1007,9 @@ class GroupCoordinator(BaseCoordinator):
                     "to another member"
                 ) from exc
             except Errors.KafkaError as err:
-                if not err.retriable:
+                # Once closing, `ensure_coordinator_known` no longer waits for
+                # a coordinator, so retrying here would never end.
+                if not err.retriable or self._closing.done():
                     raise
                 else:
                     # wait backoff and try again
